@@ -64,6 +64,8 @@ func main() {
 		set, in = streams.Adm("c11", *seed, *n, "pf11", []string{"namespace"})
 	case "c11cs":
 		set, in = streams.Adm("c11cs", *seed, *n, "pf11cs", []string{"namespace"})
+	case "c13adm":
+		set, in = streams.Adm("c13adm", *seed, *n, "pf13", []string{"pod", "controller"})
 	case "c12":
 		set, in = streams.Adm("c12", *seed, *n, "pf12", []string{"namespace"})
 	case "c18adm":
